@@ -41,4 +41,20 @@ def map_jobs(fn, jobs, procs: int | None = None, chunksize: int = 4, maxtasks: i
         _POOL = mp.get_context("fork").Pool(procs, initializer=_init)
         _PROCS = procs
         atexit.register(_close)
-    return _POOL.map(fn, jobs, chunksize=chunksize)
+    # Pool.map never returns if a worker dies (killed, aborted inside a native library): its task is lost.
+    # Poll instead, watch the workers, and redo the (pure) map on a fresh pool when one has died.
+    for _attempt in range(3):
+        if _POOL is None:
+            _POOL = mp.get_context("fork").Pool(procs, initializer=_init)
+            _PROCS = procs
+        pids = sorted(p.pid for p in _POOL._pool)
+        ar = _POOL.map_async(fn, jobs, chunksize=chunksize)
+        while True:
+            try:
+                return ar.get(timeout=5)
+            except mp.TimeoutError:
+                workers = list(_POOL._pool)
+                if sorted(p.pid for p in workers) != pids or any(p.exitcode is not None for p in workers):
+                    break
+        _close()
+    raise RuntimeError("pool: worker processes died during three attempts of the same map")
